@@ -10,6 +10,8 @@
 From RxVerif Require Import Base.Prelude Core.VTime Core.VTimeFacts Core.Periodic Core.PeriodicFacts.
 From RxVerif Require Core.NewThreadPeriodic Core.NewThreadPeriodicFacts.
 Module NTP := RxVerif.Core.NewThreadPeriodic.
+From RxVerif Require Core.PeriodicRT.
+Module PRT := RxVerif.Core.PeriodicRT.
 Module NTPF := RxVerif.Core.NewThreadPeriodicFacts.
 
 (* schedule_periodic(p, f, st0) on a fresh scheduler at clock c0, then
@@ -301,3 +303,38 @@ Example C35_nt_witness_hyps :
        ++ NTP.EInv 3500 1 :: [] ++ NTP.EDisp 3900 :: [NTP.EEnd 4500; NTP.ETest 4500 true] /\
   forallb (fun e : NTP.ev Z => negb (NTPF.is_test e)) [] = true.
 Proof. vm_compute. repeat split; reflexivity. Qed.
+
+(* ------------------------------------------------------------------------------------------ *)
+(* The generic closure on a REAL-TIME scheduler (EventLoopScheduler, TimeoutScheduler): the     *)
+(* arithmetic of the re-scheduling delay (Core/PeriodicRT.v), for all clock readings.  These    *)
+(* are the bounds the direct oracle of the K3 family (harness/eldrv.py: periodic_oracle)        *)
+(* demands on every explored interleaving; that an item never starts before its due time is     *)
+(* C31 / C34.  Nothing here is tied to the code by a correspondence (oracle-only family).       *)
+
+Theorem C35_rt_next_tick_due_a_period_later : forall p t,
+  PRT.rt_mono t -> PRT.r_now1 t + p <= PRT.rt_next_due p t.
+Proof. exact PRT.rt_next_due_ge_period. Qed.
+Print Assumptions C35_rt_next_tick_due_a_period_later.
+
+Theorem C35_rt_compensation_exact : forall p t,
+  PRT.rt_mono t -> PRT.r_now3 t = PRT.r_now2 t -> PRT.r_now2 t - PRT.r_now1 t <= p ->
+  PRT.rt_next_due p t = PRT.r_now1 t + p.
+Proof. exact PRT.rt_next_due_exact. Qed.
+Print Assumptions C35_rt_compensation_exact.
+
+Theorem C35_rt_spacing : forall p l due k a b,
+  PRT.rt_chain p due l -> nth_error l k = Some a -> nth_error l (S k) = Some b ->
+  PRT.r_now1 a + p <= PRT.r_now1 b.
+Proof. exact PRT.rt_spacing. Qed.
+Print Assumptions C35_rt_spacing.
+
+Theorem C35_rt_kth_tick_lower_bound : forall p, 0 <= p -> forall l due k a,
+  PRT.rt_chain p due l -> nth_error l k = Some a -> due + Z.of_nat k * p <= PRT.r_now1 a.
+Proof. exact PRT.rt_kth_lower_bound. Qed.
+Print Assumptions C35_rt_kth_tick_lower_bound.
+
+(* non-vacuity: a chain with an on-time tick, an overrunning one and a late one *)
+Example C35_rt_witness :
+  let l := [PRT.RTick 1000 1200 1200; PRT.RTick 2000 4500 4600; PRT.RTick 4700 4700 4700] in
+  PRT.rt_chain 1000 1000 l /\ map (PRT.rt_next_due 1000) l = [2000; 4600; 5700].
+Proof. vm_compute. repeat split; intro; discriminate. Qed.
